@@ -43,6 +43,7 @@ RELEVANT = {
     "DEFAULT_EXTERNAL_ACCOUNT_JWA": ["C04", "C11"],
     "man_vars": ["C10"], "default_hooks": ["C20"], "profile": ["C17"], "global_merge": ["C13", "C14"],
     "trust": ["C18"], "senders": ["C09", "C12", "C04", "C08"],
+    "lower": ["C01", "C16", "C05", "C06"],
 }
 
 
@@ -368,6 +369,89 @@ def gen_tables():
             % (rows, hm, kt, _lstr(t["hashes"]), _lstr(t["supported_challenges"]["dns"]),
                _lstr(t["supported_challenges"]["ip"])))
     vlib.write_if_changed(os.path.join(vlib.LEAN, "AcmedVerif", "Gen", "Tables.lean"), text)
+    return t
+
+
+def gen_lower():
+    """Unicode lower-casing as the COMPILED std does it (probe op `lower_tables`, probe/ops_lower.rs:
+    EVERY scalar value is executed, nothing sampled): the per-character table of `char::to_lowercase`
+    and the two sets `str::to_lowercase` consults around U+03A3.  Needs the hooked build.  Soft failure
+    per item: an item that cannot be re-established keeps its previous definition and is recorded."""
+    path = os.path.join(vlib.LEAN, "AcmedVerif", "Gen", "Lower.lean")
+    names = ["unicodeVersion", "lowerMap", "ignorableRanges", "casedRanges"]
+    head = ["/- GENERATED by /verif/py/gen.py from the COMPILED Rust std (probe op `lower_tables`, probe/ops_lower.rs:",
+            "   every Unicode scalar value executed) on every run. Do not edit.",
+            "   lowerMap: (c, c.to_lowercase()) for every c whose lower-casing is not [c], sorted by c.",
+            "   ignorableRanges / casedRanges: inclusive ranges, sorted, disjoint: the characters `str::to_lowercase`",
+            "   skips when it looks for the neighbours of U+03A3, and the not skipped ones that count as cased. -/",
+            "set_option maxRecDepth 65536", "namespace AcmedVerif.Gen", ""]
+    L = list(head)
+    try:
+        t = vlib.probe([{"op": "lower_tables"}], timeout=900)[0]
+    except Exception as e:          # no usable build
+        t = {"error": "probe failed: %s" % e}
+    if not isinstance(t, dict) or "lower" not in t:
+        _fail("lower", "probe op lower_tables failed: %r" % (t,))
+        old = _old_defs(path, names)
+        if len(old) == len(names):
+            return None
+        raise GenError("probe op lower_tables failed and there is no previous Gen/Lower.lean: %r" % (t,))
+
+    def section(item_names, fn):
+        try:
+            L.extend(fn())
+        except GenError as e:
+            _fail("lower", str(e))
+            L.extend(_old_defs(path, item_names))
+
+    def sorted_ranges(rs, what):
+        prev = -2
+        for lo, hi in rs:
+            if not (prev + 1 < lo <= hi <= 0x10FFFF):
+                raise GenError("%s ranges not sorted / disjoint at %r" % (what, (lo, hi)))
+            prev = hi
+        return rs
+
+    def consistent():
+        if t.get("scalars") != 0x110000 - 0x800:
+            raise GenError("lower_tables executed %r scalar values, not all of them" % t.get("scalars"))
+        if t.get("n_inconsistent") != 0:
+            raise GenError("str::to_lowercase is not explained by (per-character table, one skipped set, one cased set): "
+                           "%d exceptions, first %r" % (t.get("n_inconsistent"), t.get("inconsistent")))
+
+    def version():
+        v = t.get("unicode_version")
+        if not isinstance(v, str) or not re.fullmatch(r"\d+\.\d+\.\d+", v):
+            raise GenError("unicode version not reported")
+        return ['def unicodeVersion : String := "%s"' % v]
+
+    def lower_map():
+        consistent()
+        rows, prev = [], -1
+        for c, out in t["lower"]:
+            if not (prev < c <= 0x10FFFF) or not (1 <= len(out) <= 3) or out == [c]:
+                raise GenError("lower table row not recognised: %r" % ((c, out),))
+            prev = c
+            rows.append("(%d, [%s])" % (c, ", ".join(str(x) for x in out)))
+        if len(rows) < 1000:
+            raise GenError("only %d characters change under to_lowercase" % len(rows))
+        return ["def lowerMap : Array (Nat × List Nat) := #[%s]" % ", ".join(rows)]
+
+    def ranges(key, name):
+        def f():
+            consistent()
+            rs = sorted_ranges(t[key], key)
+            if len(rs) < 50:
+                raise GenError("only %d %s ranges" % (len(rs), key))
+            return ["def %s : Array (Nat × Nat) := #[%s]" % (name, ", ".join("(%d, %d)" % (a, b) for a, b in rs))]
+        return f
+
+    section(["unicodeVersion"], version)
+    section(["lowerMap"], lower_map)
+    section(["ignorableRanges"], ranges("ignorable", "ignorableRanges"))
+    section(["casedRanges"], ranges("cased", "casedRanges"))
+    L += ["", "end AcmedVerif.Gen", ""]
+    vlib.write_if_changed(path, "\n".join(L))
     return t
 
 
